@@ -36,6 +36,17 @@ pub fn exec(func: &str, a: &mut Args) -> String {
             let cd = c.map(|c| c.dist).unwrap_or(f64::NAN);
             format!("{} {} {} {} {} {}", b(it), b(d == 0.0), b(cp == ClosestPoints::Intersecting), b(cn), ff(d), ff(cd))
         }
+        // ---- closed-form SAT for two cuboids (bit-exact against the model): he1 he2 pos12
+        "sat_normal" | "sat_edge" | "it_cc" => {
+            use crate::p3::shape::Cuboid;
+            let he1 = d3::v(a); let he2 = d3::v(a); let m = d3::iso(a);
+            let (c1, c2) = (Cuboid::new(he1), Cuboid::new(he2));
+            match func {
+                "sat_normal" => { let (s, d) = query::sat::cuboid_cuboid_find_local_separating_normal_oneway(&c1, &c2, &m); format!("{} {}", ff(s), d3::fv(&d)) }
+                "sat_edge" => { let (s, d) = query::sat::cuboid_cuboid_find_local_separating_edge_twoway(&c1, &c2, &m); format!("{} {}", ff(s), d3::fv(&d)) }
+                _ => b(query::details::intersection_test_cuboid_cuboid(&m, &c1, &c2)).into(),
+            }
+        }
         // ---- contact self-consistency through the real dispatcher (any pair, composites included): the contact in the
         //      world frame followed by `@ m1 m2`, the point-query distance of each witness to its own shape
         "k_contact" => {
@@ -150,6 +161,9 @@ pub fn gen(r: &mut Rng, thorough: bool) -> Vec<(String, String)> {
             let gap = *r.pick(&[1.0e-3, 1.0e-2, 0.05, 0.1, 0.25, 0.5, -1.0e-3, -1.0e-2, -0.1]);
             if let Some((he1, p1, he2, p2)) = gen_edge_edge(r, lat, i, j, gap) {
                 let margin = c03::gen_param(r, lat); let pred = c03::gen_param(r, lat);
+                let pos12 = p1.inv_mul(&p2);
+                let cc = format!("{} {} {}", d3::hv(&he1), d3::hv(&he2), d3::hiso(&pos12));
+                for f in ["sat_normal", "sat_edge", "it_cc"] { v.push((f.into(), cc.clone())); }
                 let (a1, a2) = swap_pair(r, (Sh::Cuboid(he1), p1), (Sh::Cuboid(he2), p2));
                 v.push(("v_dispatch".into(), format!("{} {} {} {} {} {}", c03::hsh(&a1.0), d3::hiso(&a1.1), c03::hsh(&a2.0), d3::hiso(&a2.1), hx(margin), hx(pred))));
             }
@@ -172,6 +186,12 @@ pub fn gen(r: &mut Rng, thorough: bool) -> Vec<(String, String)> {
             let (p1, p2, _) = c03::gen_poses(r, lat, &s1, &s2);
             let pred = c03::gen_param(r, lat);
             v.push(("k_contact".into(), format!("{} {} {} {} {}", c03::hsh(&s1), d3::hiso(&p1), c03::hsh(&s2), d3::hiso(&p2), hx(pred))));
+        }
+        {   // generic cuboid pairs (face / vertex configurations, axis-aligned lattice poses with zero components)
+            let he1 = d3::gen_he(r, lat); let he2 = d3::gen_he(r, lat);
+            let (_, _, pos12) = c03::gen_poses(r, lat, &Sh::Cuboid(he1), &Sh::Cuboid(he2));
+            let cc = format!("{} {} {}", d3::hv(&he1), d3::hv(&he2), d3::hiso(&pos12));
+            for f in ["sat_normal", "sat_edge", "it_cc"] { v.push((f.into(), cc.clone())); }
         }
         c03::two::gen_k(r, lat, &mut v);
     }
